@@ -1,3 +1,56 @@
-/- Property theorems for C06 (stub: not built yet). -/
+/-
+C06  Forecast accuracy metrics equal their published definitions and obey their laws.
+Property theorems about SkVerif/Model/Metrics.lean (model of performance_metrics/forecasting/_functions.py and
+_classes.py).  `eps` stands for EPS = np.finfo(float64).eps; every theorem holds for any `0 < eps`.
+A result `Out` carries radicands `qs` and a root degree `deg`: the reported number per column is `qs[j]^(1/deg)`
+(`deg = 1`: no root; `np.sqrt` doubles the degree; geometric means have the number of factors as degree).
+Only theorems + non-vacuity examples here; lemmas live in SkVerif/Lemmas/Metrics*.lean.
+-/
+import SkVerif.Model.Metrics
+import SkVerif.Spec.Metrics
+import SkVerif.Lemmas.MetricsSym
+import SkVerif.Lemmas.MetricsScale
 namespace SkVerif.C06
-end SkVerif.C06
+open SkVerif SkVerif.Metrics SkVerif.Lem.Metrics
+
+/-- the value of EPS in the real code (used only in examples and witnesses) -/
+def EPS : Rat := 1 / 4503599627370496
+
+/-! ## 1. Every loss is non-negative -/
+
+/-- All 18 metrics, all options: if the call returns, every radicand is ≥ 0 and (for root-free results) so is the
+exact value / weighted average over output columns.  Hypotheses: horizon weights and output weights ≥ 0. -/
+theorem loss_nonneg (eps : Rat) (he : 0 < eps) (m : Metric) (a : Args) (out : Out)
+    (hw : NonnegW a.hw) (hmo : NonnegMO a.mo) (h : call eps m a = .ok out) :
+    (∀ q ∈ out.qs, 0 ≤ q) ∧ (∀ v ∈ out.perCol, 0 ≤ v) := by
+  cases m <;> simp only [call] at h
+  case mae => exact mae_nonneg h hw hmo
+  case mse => exact mse_nonneg h hw hmo
+  case mdae => exact mdae_nonneg h hmo
+  case mdse => exact mdse_nonneg h hmo
+  case mape => exact mape_nonneg h hw hmo
+  case mdape => exact mdape_nonneg h hmo
+  case mspe => exact mspe_nonneg h hw hmo
+  case mdspe => exact mdspe_nonneg h hmo
+  case masym => exact masym_nonneg h hw hmo
+  case mrae => cases hb : a.yb <;> simp only [hb, needArg] at h <;> (first | cases h | exact mrae_nonneg h hw hmo)
+  case mdrae => cases hb : a.yb <;> simp only [hb, needArg] at h <;> (first | cases h | exact mdrae_nonneg h hmo)
+  case gmrae => cases hb : a.yb <;> simp only [hb, needArg] at h <;> (first | cases h | exact gmrae_nonneg he h hmo)
+  case gmrse => cases hb : a.yb <;> simp only [hb, needArg] at h <;> (first | cases h | exact gmrse_nonneg he h hmo)
+  case relloss =>
+    cases hb : a.yb <;> simp only [hb, needArg] at h <;> (first | cases h | exact relativeLoss_nonneg he h hw hmo)
+  case mase =>
+    cases hb : a.ytr <;> simp only [hb, needArg] at h <;>
+    (first | cases h | exact scaled_nonneg he (fun _ _ _ _ _ h' hn hm => mae_nonneg h' hn hm) h hw hmo)
+  case mdase =>
+    cases hb : a.ytr <;> simp only [hb, needArg] at h <;>
+    (first | cases h | exact scaled_nonneg he (fun _ _ _ _ _ h' _ hm => mdae_nonneg h' hm) h hw hmo)
+  case msse =>
+    cases hb : a.ytr <;> simp only [hb, needArg] at h <;>
+    (first | cases h | exact scaled_nonneg he (fun _ _ _ _ _ h' hn hm => mse_nonneg h' hn hm) h hw hmo)
+  case mdsse =>
+    cases hb : a.ytr <;> simp only [hb, needArg] at h <;>
+    (first | cases h | exact scaled_nonneg he (fun _ _ _ _ _ h' _ hm => mdse_nonneg h' hm) h hw hmo)
+
+example : call EPS .mase { yt := [[1, 2]], yp := [[3/2, 2]], ytr := some (.arr [[0, 1, 3]]), hw := some [1, 3] }
+    = .ok (.avg 1 none [1 / 12]) := by decide +kernel
